@@ -88,7 +88,7 @@ def o2(h, st):
 
 
 @contract("C15", "O2b.Link.relink.group", targets=[(HC, "Link.relink")], level="B",
-          structures=lambda tier: [{"species": s, "bond": b} for s in ("CH3", "CF3", "NH2") for b in ("random", "antiparallel", "parallel", "orthogonal")],
+          structures=lambda tier: [{"species": s, "bond": b} for s in ("CH3", "CF3", "NH2", "custom") for b in ("random", "antiparallel", "parallel", "orthogonal")],
           native_samples=lambda st, rnd, tier: [{"seed": rnd.randint(0, 10 ** 6)} for _ in range(3)])
 def o2b(h, st):
     """bounded (scipy rotation): for a chemical group the first atom of the group sits on the broken bond at the requested fraction, the group keeps its internal geometry and it
@@ -97,7 +97,9 @@ def o2b(h, st):
     import numpy as np
     rs = np.random.default_rng(int(h.integer("seed")))
     f = 0.8
-    link = h.call(HC, "Link", 0, 1, f, st["species"])
+    # ("custom": a user-defined group given as a list whose first entry is the ghost atom X marking the staying side)
+    species = st["species"] if st["species"] != "custom" else [("X", (0.2, -0.1, 0.0)), ("O", (0.2, -0.1, 1.1)), ("H", (1.05, -0.1, 1.45)), ("H", (-0.3, 0.6, 1.5))]
+    link = h.call(HC, "Link", 0, 1, f, species)
     ghost = np.array([a[1] for a in link.species if a[0].upper() == "X"][0], dtype=float)
     ref = [a for a in link.species if a[0].upper() != "X"]
     axis_t = np.array(ref[0][1], dtype=float) - ghost
